@@ -12,7 +12,7 @@ type execMirror struct {
 	Outputs  []Output  `json:"outputs"`
 }
 
-func runExec(t *testing.T, s *Scenario) emit.Case {
+func runExec(t *testing.T, s *Scenario, prop string) emit.Case {
 	outs := make([]Output, 0, len(configs))
 	for _, cfg := range configs {
 		o, err := s.execute(cfg)
@@ -41,10 +41,23 @@ func runExec(t *testing.T, s *Scenario) emit.Case {
 			}
 		}
 	}
-	sig := "parallel-differs-from-sequential"
+	sig := map[string]string{
+		"C01": "parallel-differs-from-sequential",
+		"C03": "tx-not-atomic-or-fee-wrong",
+		"C07": "fee-check-other",
+		"C11": "accepted-block-does-not-extend-parent",
+		"C24": "parent-reads-not-exactly-declared",
+	}[prop]
 	for _, o := range outs {
 		if o.ErrCls == 99 {
 			sig = "execute-hang"
+		}
+		if prop == "C07" && o.ErrCls == 0 {
+			for i, r := range o.Results {
+				if r.Fee > s.Txs[i].MaxFee {
+					sig = "included-tx-fee-gt-maxfee"
+				}
+			}
 		}
 	}
 	return emit.Case{
@@ -79,12 +92,12 @@ func TestDriver(t *testing.T) {
 			if m.Scenario == nil {
 				continue
 			}
-			_ = w.Put(runExec(t, m.Scenario))
+			_ = w.Put(runExec(t, m.Scenario, env.Prop))
 		}
 		return
 	}
 	r := env.Rand()
 	for i := 0; i < env.N; i++ {
-		_ = w.Put(runExec(t, genScenario(r)))
+		_ = w.Put(runExec(t, genScenario(r, env.Prop), env.Prop))
 	}
 }
